@@ -145,7 +145,7 @@ class C19:
     exhaustive = None
 
     def budget(self, tier):
-        return 1800 if tier == 'quick' else 50000
+        return 1800 if tier == 'quick' else 20000
 
     # ---- (b) macro-ised programs
     def macroise(self, ch, src):
